@@ -1179,9 +1179,9 @@ def gen_entries_t(tier, rng):
     add('quad', 'U2q-sheared', ps, ts, ['ElementQuad1'], renumber=False)
     ph, th = hex_frustum()                        # tapered in two directions: det DF of degree 2 in the axial direction
     add('hex', 'hex-frustum', ph, th, ['ElementHex1'], renumber=False)
-    ph, th = hex_trapezoid_prism()                # tapered in one direction
-    add('hex', 'hex-trapezoid-prism', ph[:, :8], th[:, :1], ['ElementHex1'], forms=('mass',), renumber=False)
     if tier == 'thorough':
+        ph, th = hex_trapezoid_prism()            # tapered in one direction
+        add('hex', 'hex-trapezoid-prism', ph[:, :8], th[:, :1], ['ElementHex1'], forms=('mass',), renumber=False)
         ph, th = hex_frustum()
         add('hex', 'hex-frustum', ph, th, ['ElementHex1'])
         ph, th = U.hex_grid(1, 1, 1)
